@@ -25,7 +25,10 @@ type batchSpec struct {
 	del  []string // keys deleted by the batch
 	big  bool
 	sync bool
+	rk   bool // the batch also sets the range key [a,z)@5 (value b<i>)
 }
+
+const rkName = "~rangekey[a,z)@5" // how the range key appears in an observation
 
 type scen struct {
 	name    string
@@ -48,8 +51,10 @@ type h struct {
 	x     *hx.X
 	done  []atomic.Bool // read by readers while committers run: goes through the scheduler shims
 	errs  []error
-	obs   []*obs
-	close error
+	obs      []*obs
+	close    error
+	final    []hx.KV
+	finalErr error
 }
 
 func (s *h) Setup() {
@@ -102,6 +107,34 @@ func scan(r pebble.Reader, backward bool) ([]hx.KV, error) {
 	return out, it.Close()
 }
 
+// scanAll scans points and range keys; a range key is reported as one entry named rkName per
+// distinct span it surfaces with (name includes the bounds actually reported).
+func scanAll(r pebble.Reader) ([]hx.KV, error) {
+	it, err := r.NewIter(&pebble.IterOptions{KeyTypes: pebble.IterKeyTypePointsAndRanges})
+	if err != nil {
+		return nil, err
+	}
+	var out []hx.KV
+	for v := it.First(); v; v = it.Next() {
+		hp, hr := it.HasPointAndRange()
+		if hr && it.RangeKeyChanged() {
+			st, en := it.RangeBounds()
+			for _, k := range it.RangeKeys() {
+				out = append(out, hx.KV{K: fmt.Sprintf("~rangekey[%s,%s)%s", st, en, k.Suffix), V: string(k.Value)})
+			}
+		}
+		if hp {
+			out = append(out, hx.KV{K: string(it.Key()), V: string(it.Value())})
+		}
+	}
+	if err := it.Error(); err != nil {
+		it.Close()
+		return nil, err
+	}
+	sort.Slice(out, func(i, j int) bool { return out[i].K < out[j].K })
+	return out, it.Close()
+}
+
 func (s *h) universe() []string {
 	m := map[string]bool{}
 	for _, k := range s.sc.pre {
@@ -139,6 +172,9 @@ func (s *h) Threads() []func() {
 			for _, k := range bs.del {
 				b.Delete([]byte(k), nil)
 			}
+			if bs.rk {
+				b.RangeKeySet([]byte("a"), []byte("z"), []byte("@5"), []byte(fmt.Sprintf("b%d", i)), nil)
+			}
 			if bs.big {
 				b.LogData(make([]byte, int(s.x.Opts.MemTableSize)/2+1024), nil)
 			}
@@ -164,6 +200,9 @@ func (s *h) Threads() []func() {
 			switch kind {
 			case "iter-fwd", "iter-bwd":
 				r, err := scan(d, kind == "iter-bwd")
+				o.reads, o.err = append(o.reads, r), err
+			case "iterkr-fwd":
+				r, err := scanAll(d)
 				o.reads, o.err = append(o.reads, r), err
 			case "iter-fwd-twice":
 				r, err := scan(d, false)
@@ -217,6 +256,8 @@ func (s *h) Threads() []func() {
 // Finish runs as a managed thread after the committers and readers are done: Close needs the
 // background threads spawned during the scenario (e.g. the flush loop of a rotated WAL) to run.
 func (s *h) Finish() {
+	// the state every later reader sees: all batches, whole
+	s.final, s.finalErr = scanAll(s.x.D)
 	s.close = s.x.D.Close()
 }
 
@@ -272,6 +313,9 @@ func (s *h) allowed() []st {
 			}
 			for _, k := range s.sc.batches[i].del {
 				delete(nx, k)
+			}
+			if s.sc.batches[i].rk {
+				nx[rkName] = fmt.Sprintf("b%d", i)
 			}
 			perm(used|1<<uint(i), nx)
 		}
@@ -367,10 +411,21 @@ func judge(hh vsched.Harness, x *vsched.Exec) (string, string, string) {
 			prevHas = has
 		}
 	}
-	// final state: all batches applied in some order
-	fin, err := scan(nil2(s), false)
-	_ = fin
-	_ = err
+	// final state: all batches, whole, applied in some order
+	if s.finalErr != nil {
+		return strings.Join(outcome, " "), "read-error", "final scan: " + s.finalErr.Error()
+	}
+	fin := render(s.final)
+	okFinal := false
+	all := uint(1)<<uint(len(s.sc.batches)) - 1
+	for _, a := range al {
+		if a.has == all && a.state == fin {
+			okFinal = true
+		}
+	}
+	if !okFinal {
+		return strings.Join(outcome, " "), "final-state-misses-part-of-a-committed-batch", fmt.Sprintf("after every Apply returned, a fresh iterator (points and range keys) shows {%s}; allowed: %v", fin, states(al))
+	}
 	return strings.Join(outcome, " "), "", ""
 }
 
@@ -648,6 +703,7 @@ func scenarios1(prop string) []d1x.Scenario {
 			mk(scen{name: "disjoint-3x2-iterfwd", cfg: nowal, batches: []batchSpec{B("a", "d"), B("b", "e"), B("c", "f")}, readers: []string{"iter-fwd"}}, 0, 1, 1),
 			mk(scen{name: "wal-sync-disjoint-2x2-iterfwd", cfg: wal, batches: []batchSpec{{keys: []string{"a", "c"}, sync: true}, {keys: []string{"b", "d"}, sync: true}}, readers: []string{"iter-fwd"}}, 1, 1, 1),
 			mk(scen{name: "flushable-big-batch", cfg: small, batches: []batchSpec{{keys: []string{"a", "c"}, big: true}, B("b", "d")}, readers: []string{"iter-fwd"}}, 0, 1, 1),
+			mk(scen{name: "point+rangekey-batch-iterkr", cfg: nowal, pre: []string{"0"}, batches: []batchSpec{{keys: []string{"p"}, rk: true}, B("q")}, readers: []string{"iterkr-fwd"}}, 1, 2, 2),
 			mk(scen{name: "set+delete-batches", cfg: nowal, preL0: []string{"a", "b"}, batches: []batchSpec{{keys: []string{"c"}, del: []string{"a"}}, {keys: []string{"d"}, del: []string{"b"}}}, readers: []string{"snap-fwd"}}, 1, 2, 1),
 		)
 	} else { // C07
